@@ -428,12 +428,21 @@ RunCtx(c, s) ==
 AfterSrc == "(emit (r07p@@)) " \o ProbeSrc
 After(g) == <<ToString(g.p)>> \o Probe(g)
 
+(* Definitions that FOLLOW the failing form in the same unit.  Eval(G, unit) = err leaves G       *)
+(* unchanged: the names are not bound afterwards, so a later reference to one - as a value or as   *)
+(* the operator of a call - is an error (never a crash: Steel interns the names of a unit before   *)
+(* it runs, so the failed unit leaves names without a slot behind).  When the unit completes (the *)
+(* failure was handled inside it) they are bound.                                                 *)
+LateSrc == " (define (r07late@@ x) (+ x 1)) (define r07latev@@ 5)"
+LateProbes(out) == << [src |-> "(emit (r07late@@ 1))", out |-> out, emits |-> IF out = "ok" THEN <<"2">> ELSE << >>],
+                      [src |-> "(emit r07latev@@)", out |-> out, emits |-> IF out = "ok" THEN <<"5">> ELSE << >>],
+                      [src |-> "(emit (list (r07late@@ 2) r07latev@@))", out |-> out, emits |-> IF out = "ok" THEN <<"(3 5)">> ELSE << >>] >>
 StageCase(ci, si) ==
   LET c == Contexts[ci]  s == Stages[si]  r == RunCtx(c, s)
       d == ((ci + si) % 7) + 1
       g == [d |-> d, g |-> 1, p |-> 1]
   IN [k |-> "stage", ctx |-> c.n, stage |-> s.n, st |-> s.st, d |-> d,
-      src |-> UnitSrc(c, s), out |-> r.out, emits |-> r.emits,
+      src |-> UnitSrc(c, s) \o LateSrc, out |-> r.out, emits |-> r.emits, late |-> LateProbes(r.out),
       ctl |-> UnitSrc(c, Stages[NS]), ctlemits |-> RunCtx(c, Stages[NS]).emits,
       after |-> After(g)]
 
